@@ -6,7 +6,7 @@
 (*   concrete  T1 (struct), PT1 (pointer to T1), T2 (struct), N1 (named string),     *)
 (*             CH (chan int)                                               *)
 (*   RCH       <-chan int: only usable as a key through Set()              *)
-(*   interface I1 {M1}, I2 {M2}, I3 {M1, M2}                               *)
+(*   interface I1 {M1}, I2 {M2}, I3 {M1, M2}, E0 {} (implemented by all)   *)
 (* A value is [ct, id]: the concrete type it was built from and an id.     *)
 (* vals[s][k] is the value registered in scope s under key type k, or None.*)
 (* parent[s] is the enclosing scope (0 = none).                            *)
@@ -14,13 +14,14 @@
 EXTENDS Naturals, Sequences, FiniteSets, TLC
 
 Concrete == {"T1", "PT1", "T2", "N1", "CH"}
-Ifaces == {"I1", "I2", "I3"}
+Ifaces == {"I1", "I2", "I3", "E0"}
 \* "CTX" = flamego.Context, which the request context maps to itself and a handler may re-map (trace validation only)
 Keys == Concrete \cup Ifaces \cup {"RCH", "CTX"}
 \* <<key type, interface>>: the key's method set covers the interface
 Implements == { <<"T1", "I1">>, <<"PT1", "I1">>, <<"I1", "I1">>, <<"I3", "I1">>,
                 <<"T1", "I2">>, <<"PT1", "I2">>, <<"T2", "I2">>, <<"N1", "I2">>, <<"I2", "I2">>, <<"I3", "I2">>,
                 <<"T1", "I3">>, <<"PT1", "I3">>, <<"I3", "I3">> }
+              \cup { <<k, "E0">> : k \in Concrete \cup {"I1", "I2", "I3", "E0", "RCH", "CTX"} }   \* the empty method set
 None == [ct |-> "none", id |-> 0]
 Val(ct, id) == [ct |-> ct, id |-> id]
 
